@@ -155,6 +155,7 @@ func encEvent(k string, val M) M {
 	if res != "" {
 		return ev
 	}
+	disturb()
 	ev["bytes"] = bs(b)
 	// the library's own decode of its own bytes (lossless-or-error)
 	q := cmdTab[k].mk()
